@@ -280,6 +280,21 @@ class VClass(V):
         return "VClass(%s)" % self.name
 
 
+class VOpt(V):
+    """an Optional value with a symbolic None flag (contract option lazy_opt): `n` is a z3 Bool "is None", `val` the
+    value when it is not None.  It flows through assignments, dict.pop/get defaults, conditional expressions and
+    `is None` tests unresolved; any other use resolves it (Ev.resolve: by the path condition, else by forking)."""
+    __slots__ = ("n", "val", "name")
+
+    def __init__(self, n, val, name="opt"):
+        self.n = n
+        self.val = val
+        self.name = name
+
+    def __repr__(self):
+        return "VOpt(%s)" % self.name
+
+
 class VGlobal(V):
     """an unresolved module-level / dotted name (module objects, imported things)"""
     __slots__ = ("name",)
